@@ -14,7 +14,11 @@ def doc_value(rng):
     r = rng.random()
     if r < 0.45: return rng.choice(ROOTS)
     if r < 0.55: return rng.choice([[], {}, [[]], {'a': []}, None, True, 1.5, 0])
-    return values.build(rng, rng.choice([0, 1, 2]), [], odd_tz=False)
+    v = values.build(rng, rng.choice([0, 1, 2]), [], odd_tz=False)
+    if rng.random() < 0.4:
+        shared = rng.choice([[1, 2], {'k': 'v'}, ['x']])
+        v = rng.choice([[shared, shared, v], {'a': shared, 'b': shared}, [[shared], v, shared]])      # documents with anchors/aliases
+    return v
 
 def run(ctx):
     ctx.rule = RULE
